@@ -33,6 +33,10 @@ extern void *mpt_buffer_insert(MPT_STRUCT(buffer) *buf, size_t pos, size_t len)
 	
 	/* need memory for inserted and existing data */
 	used = buf->_used;
+	if (len > (SIZE_MAX - ((pos < used) ? used : pos))) {
+		errno = EINVAL;
+		return 0;
+	}
 	if (pos < used) {
 		total = used + len;
 		keep = used - pos;
